@@ -23,7 +23,7 @@ LEVEL = "model_checking"
 
 NAMES_FULL = [["a"], ["b"], ["a", "c"], ["b", "a"], ["b", "a", "c"], ["b", "a", "c", "e"], ["..", "x"], ["a", "..", "..", "x"], ["/", "a"],
               ["/", "O", "x"], ["J", "a"], [".", "a"], ["a", "..", "b"]]
-TARGETS = [["."], [".."], ["..", ".."], ["a"], ["a", ".."], ["/", "J", "a"], ["/", "O"], ["c"]]
+TARGETS = [["."], [".."], ["..", ".."], ["a"], ["a", ".."], ["/", "J", "a"], ["/", "O"], ["c"], ["..", "Jx"]]
 NAMES_RED = [["b", "a"], ["b", "a", "c"], ["b", "a", "c", "e"], ["a"], ["a", "c"]]
 
 
@@ -35,6 +35,34 @@ def entries_of(names, targets):
         for t in targets:
             out.append({"name": n, "kind": "link", "tgt": t})
     return out
+
+
+def chain_archives(R, n):
+    """archives grown from link chains: later names run through earlier links, links are re-pointed through aliases, files are
+    written after a parent directory has already been used.  A tiny resolver tracks what each name denotes."""
+    outs = []
+    tg = [[".."], ["."], ["..", ".."], ["..", "Jx"], ["..", "O"], ["a"], ["b"], ["b", ".."]]
+    for _ in range(n):
+        ents, links, dirs = [], [], [["a"], ["b"]]
+        for _ in range(R.randrange(3, 7)):
+            r = R.random()
+            base = R.choice(links + dirs) if (links or dirs) and r < 0.8 else []
+            comp = R.choice(["a", "b", "c", "up", "x"])
+            name = list(base) + [comp]
+            if len(name) > 5:
+                name = name[-5:]
+            k = R.random()
+            if k < 0.55:
+                ents.append({"name": name, "kind": "link", "tgt": R.choice(tg)})
+                links.append(name)
+            elif k < 0.9:
+                ents.append({"name": name, "kind": "file", "tgt": []})
+                dirs.append(name[:-1] or ["a"])
+            else:
+                ents.append({"name": name, "kind": "dir", "tgt": []})
+                dirs.append(name)
+        outs.append(ents)
+    return outs
 
 
 MC_CFG = """SPECIFICATION Spec
@@ -70,13 +98,13 @@ def run(tier, rep, ev):
     ev.add_tlc(r, f"ExtractFSMC({arch_set}, Guarded)")
     if not r.ok:
         rep.note_drift(f"I-level model of the repaired tree violates {r.violated}; replay decides")
-    rn = tlc.run("ExtractFSMC", cfg_text=MC_CFG % ("Len3Red", "FALSE"), workers=16, timeout=900)
+    rn = tlc.run("ExtractFSMC", cfg_text=MC_CFG % ("NegArchives", "FALSE"), workers=4, timeout=900)
     ev.cov["negative_control"] = {"cfg": "Guarded = FALSE", "violated": rn.violated or "NOTHING"}
     if rn.ok:
         raise MachineryError("negative control failed: the unguarded extraction model never escapes")
     # ---- R/T
     full = entries_of(NAMES_FULL, TARGETS)
-    red = [e for e in entries_of(NAMES_RED, [["."], [".."], ["..", ".."]]) if e["kind"] != "dir"]
+    red = [e for e in entries_of(NAMES_RED, [["."], [".."], ["..", ".."], ["..", "Jx"]]) if e["kind"] != "dir"]
     archives = [[e] for e in full]
     l2 = [[a, b] for a in full for b in full]
     l3 = [[a, b, c] for a in red for b in red for c in red]
@@ -93,6 +121,18 @@ def run(tier, rep, ev):
         [{"name": ["d"], "kind": "file", "tgt": []}, {"name": ["x", "..", "d"], "kind": "link", "tgt": [".."]}, {"name": ["d", "..", "z"], "kind": "file", "tgt": []}],
         [{"name": ["d"], "kind": "dir", "tgt": []}, {"name": ["d", "l"], "kind": "link", "tgt": ["..", ".."]}, {"name": ["d", "l", "O", "keep"], "kind": "file", "tgt": []}],
     ]
+    L = lambda n, t: {"name": n, "kind": "link", "tgt": t}      # noqa: E731
+    F = lambda n: {"name": n, "kind": "file", "tgt": []}          # noqa: E731
+    archives += [
+        # the destination's sibling with a common name prefix
+        [L(["d", "l1"], [".."]), L(["d", "l1", "l2"], ["..", "Jx"]), F(["l2", "x"])],
+        [L(["b", "a"], [".."]), L(["b", "a", "c"], ["..", "Jx"]), F(["b", "a", "c", "e"])],
+        # an existing link re-pointed through an alias of its directory, after its parent had been used (and checked) before
+        [L(["b", "up"], [".."]), L(["a"], ["b"]), F(["a", "x1"]), L(["b", "up", "a"], ["..", "O"]), F(["a", "x2"])],
+        [L(["b", "up"], [".."]), L(["a"], ["b"]), F(["a", "x1"]), L(["b", "up", "a"], ["..", "Jx"]), F(["a", "x2"])],
+        [L(["b", "up"], ["."]), L(["a"], ["b"]), {"name": ["a", "d"], "kind": "dir", "tgt": []}, L(["b", "up", "up", "a"], [".."]), F(["a", "d", "x2"])],
+    ]
+    archives += chain_archives(R, 1500 if tier == "quick" else 30000)
     # random longer archives
     comps = ["a", "b", "c", "..", ".", "J"]
     for _ in range(300 if tier == "quick" else 6000):
